@@ -36,7 +36,8 @@ import ScVerif.C09.Mixed
                                   forwarders take greedily: moves `w` (the writer starts its next write `t<n>` unless one is still
                                   waiting) / `d<k>` (consumer k receives once) → per move `ok:t` | `wait:t` | `still:t` /
                                   `<value|none>[+t]` (`+t`: the waiting write completed as a result), each followed by
-                                  `@<looks0>/<looks1>/…` (how many events each forwarder has taken so far: used for waiting only)
+                                  `@<looks0>/<looks1>/…#<p>` (how many events each forwarder has taken so far, and the listener the
+                                  waiting send is at, `-` = none: used for waiting only)
 * `set <deadline> <listener>*`    `Value.set` after its commit: `Bus.Send` as above, then the error mapping
                                   (`setReturnsError`) → `error@<t>` or `ok@<t>`
 -/
@@ -269,6 +270,7 @@ def xlooks (seedN : Nat) (c : MixCfg String) : String :=
   "/".intercalate (c.subs.map (fun s => toString (match s with
     | .lossy v => v.delivered.length + v.inHand.toList.length - seedN
     | .bp b => b.accepted.length - seedN)))
+  ++ "#" ++ (match c.sending with | some (_, p) => toString p | none => "-")
 
 def xoffer (c : MixCfg String) (k : Nat) : String :=
   match c.subs[k]? with
